@@ -38,12 +38,32 @@ def shard(mods, n):
     return [s for s in out if s]
 
 
-def run_sharded(mods, jobs=6, timeout=1500):
+def run_sharded(mods, jobs=6, timeout=150):
+    """run modules in parallel subprocess shards.  pyanalyze does not terminate (in any useful time)
+    on a few generated programs and cannot be interrupted from inside the process, so a shard that
+    exceeds its time limit is re-run module by module with a short limit; modules that still do not
+    finish are reported as {"timeout": True} (counted in the coverage, a matter for C12, not C01)."""
     import concurrent.futures as cf
+
+    def one(shard_mods, limit):
+        try:
+            return lib.run_impl_script("c01_impl.py", {"modules": shard_mods, "budget": BUDGET}, timeout=limit)
+        except RuntimeError:
+            return None
+
+    def run_shard(shard_mods):
+        o = one(shard_mods, timeout)
+        if o is not None:
+            return [o]
+        outs = []
+        for m in shard_mods:
+            o = one([m], 45)
+            outs.append(o if o is not None else {"results": [{"id": m["id"], "timeout": True, "fails": [], "counts": {}}]})
+        return outs
 
     shards = shard(mods, jobs)
     with cf.ThreadPoolExecutor(max_workers=jobs) as ex:
-        outs = list(ex.map(lambda s: run_impl({"modules": s, "budget": BUDGET}, timeout), shards))
+        outs = [o for group in ex.map(run_shard, shards) for o in group]
     results = []
     unknown = {}
     custom = 0
@@ -112,18 +132,13 @@ def run(tier: str, replay: str | None = None):
         sample = [m for m in mods if str(m["id"]).startswith("g")][:4]
         a = run_impl({"modules": [{"id": m["id"], "src": m["src"], "values_str_only": True, "via_annotate_code": True} for m in sample], "budget": BUDGET})
         b = run_impl({"modules": [{"id": m["id"], "src": m["src"], "values_str_only": True} for m in sample], "budget": BUDGET})
-        import re
-
-        def norm(s):
-            return re.sub(r"0x[0-9a-f]+|<test input [0-9a-f]+>", "@", s)
-
         n_api = 0
         for ra, rb in zip(a["results"], b["results"]):
-            va, vb = ra.get("values_str", {}), rb.get("values_str", {})
+            va, vb = ra.get("values_fp", {}), rb.get("values_fp", {})
             for k in va:
                 n_api += 1
-                if k in vb and norm(va[k]) != norm(vb[k]):
-                    api_mismatch.append((ra["id"], k, va[k], vb[k]))
+                if k in vb and va[k] != vb[k]:
+                    api_mismatch.append((ra["id"], k, ra["values_str"][k], rb["values_str"][k]))
     else:
         n_api = 0
 
@@ -136,9 +151,13 @@ def run(tier: str, replay: str | None = None):
     known_hits = {}
     diagnosed_fails = 0
     crashes = []
+    timeouts = []
     corpus_status = []
     for r in results:
         m = by_id[r["id"]]
+        if r.get("timeout"):
+            timeouts.append(r["id"])
+            continue
         if r.get("crash"):
             crashes.append((r["id"], r["crash"]))
             continue
@@ -222,7 +241,7 @@ def run(tier: str, replay: str | None = None):
             "known_finding_hits": known_hits, "new_failures": len(new_fails),
             "runtime_exceptions": exec_errors, "unknown_value_kinds": unknown_kinds, "custom_checks_evaluated": custom_checked,
             "generator_histogram": hist if replay_input is None else {},
-            "corpus": corpus_status,
+            "corpus": corpus_status, "modules_whose_analysis_timed_out_25s": timeouts,
         },
         annotate_code_crosscheck={"nodes": n_api, "mismatches": len(api_mismatch)},
         mini_correspondence=mini_cov,
